@@ -15,7 +15,7 @@ func buildProfile() (lifes, forms, variants []int) {
 	case 0: // every dependency form on plain identities (cycles, conflicts, missing)
 		return all, []int{kit.IdPlain}, []int{0, 1, 2, 3, 6, 11, 13, 15, 18, 19}
 	case 1: // keyed / group / interface edges
-		return all, []int{kit.IdPlain, kit.IdNamed, kit.IdGroup, kit.IdAs, kit.IdAsGroup}, []int{0, 4, 5, 7, 8, 16}
+		return all, []int{kit.IdPlain, kit.IdNamed, kit.IdGroup, kit.IdAs, kit.IdAsGroup}, []int{0, 4, 5, 7, 8, 16, 26}
 	case 2: // initializers and multi-output forms
 		return all, []int{kit.IdPlain, kit.IdVoid, kit.IdVoidErr, kit.IdMulti, kit.IdResObj}, []int{0, 1, 11, 3}
 	case 4: // the same dependency twice, one type under two keys, embedded fields
@@ -217,13 +217,13 @@ func checkDeclared(w *kit.World, c godi.Collection) {
 			if wt != nil && dep.Type != wt {
 				ok = false
 			}
-			if (dep.Key == "k1") != (want[j].Form == kit.FormNamed) || (dep.Key != nil && dep.Key != "k1") {
+			if (dep.Key == "k1") != (want[j].Form == kit.FormNamed || want[j].Form == kit.FormNamedOptional) || (dep.Key != nil && dep.Key != "k1") {
 				ok = false
 			}
 			if (dep.Group == "g1") != (want[j].Form == kit.FormGroup) {
 				ok = false
 			}
-			if dep.Optional != (want[j].Form == kit.FormOptional) {
+			if dep.Optional != (want[j].Form == kit.FormOptional || want[j].Form == kit.FormNamedOptional) {
 				ok = false
 			}
 		}
